@@ -4,6 +4,8 @@ import Blue.Proofs.LevelSlice
 import Blue.Proofs.SelectorClosed
 import Blue.Proofs.BoundsFixed
 import Blue.Proofs.Kvs
+import Blue.Proofs.TrivialMove
+import Blue.Proofs.ExpandClosed
 /-! # Property C01 — point reads return the latest write, whatever the tree did in between
 
 Property theorems only.  The store is modelled as the list of its components in *search order*
@@ -16,8 +18,9 @@ of the tree invariants I1 (levels ≥ 1 sorted, ranges at most touching) ∧ I2 
 What is proved: on every state satisfying I1 ∧ I2 the read returns exactly the visible version
 (`read_returns_latest`); ingest/flush, every *closed* compaction with any outputs and any cut
 points (with or without GC drops) and trivial moves preserve I2 and, when nothing is dropped,
-every read at every timestamp (`step_*`); the selector's un-expanded slices are closed
-(`selector_slices_closed`).  What is checked per run rather than proved: that the implementation's
+every read at every timestamp (`step_*`); the selector's slices (`selector_slices_closed`), the
+trivial move and `expand_compaction` as repaired (`trivial_move_closed`, `expansion_closed`) are
+closed, each from the guarantee its loop establishes (`Selection.Ok`, `Expansion.Ok`).  What is checked per run rather than proved: that the implementation's
 reached states satisfy `invB`, and that every compaction the real selector chose is `closedB` on
 the state it was chosen in (both are evaluated by the driver on the dumped states).
 `recover` (level reassignment on reopen) does **not** preserve I1/I2 — known finding D-9. -/
@@ -74,6 +77,22 @@ theorem selector_slices_closed (s : Selection) (levels : List (Nat × List TFile
     (hwf : ∀ p ∈ levels, ∀ f ∈ p.2, f.Wf) (hok : s.Ok levels) : Closed (tagLevels s levels) :=
   selection_closed s levels hlv hup hwf hok
 
+/-- the trivial move as repaired (nothing else in the file's own level and nothing in the next
+    level meets its key range) is a closed selection -/
+theorem trivial_move_closed (lvl : Nat) (f : TFile) (levels : List (Nat × List TFile))
+    (hlv : levels.Pairwise (fun a b => a.1 < b.1)) (hup : ∀ l ∈ levels, l.1 ≤ lvl + 1)
+    (hwf : ∀ l ∈ levels, ∀ g ∈ l.2, g.Wf)
+    (halone : ∀ l ∈ levels, ∀ g ∈ l.2, lvl ≤ l.1 → (⟨f.first, f.last⟩ : Rng).meets g = true → g = f) :
+    Closed (tagLevels (moveSel lvl f) levels) := Blue.Spec.trivial_move_closed lvl f levels hlv hup hwf halone
+
+/-- `expand_compaction` as repaired (a level's files inside the window are added only if every file
+    of that level meeting the window lies inside it; the window narrows to what was added) yields a
+    closed selection -/
+theorem expansion_closed (e : Expansion) (levels : List (Nat × List TFile))
+    (hlv : levels.Pairwise (fun a b => a.1 < b.1)) (hup : ∀ l ∈ levels, l.1 ≤ e.base.upper)
+    (hwf : ∀ l ∈ levels, ∀ f ∈ l.2, f.Wf) (hok : e.Ok levels) :
+    Closed (tagBy e.inp levels) := Blue.Spec.expansion_closed e levels hlv hup hwf hok
+
 /-- why closedness is needed (the shape of the trivial-move defect D-25 and of D-8): an input above
     and below a kept component sharing a key — the read returns the kept, older version -/
 theorem open_compaction_stale_read_witness :
@@ -98,6 +117,11 @@ end Blue.Props.C01
 #print axioms Blue.Props.C01.step_compaction_reads
 #print axioms Blue.Props.C01.closed_check_sound
 #print axioms Blue.Props.C01.selector_slices_closed
+#print axioms Blue.Props.C01.trivial_move_closed
+#print axioms Blue.Props.C01.expansion_closed
+#print axioms Blue.Spec.trivial_move_unrepaired_open
+#print axioms Blue.Spec.expansion_unrepaired_open
+#print axioms Blue.Spec.closed_of_cover
 #print axioms Blue.Props.C01.open_compaction_stale_read_witness
 #print axioms Blue.Spec.pieces_newer
 #print axioms Blue.Spec.swap_disjoint_blocks
